@@ -3,10 +3,12 @@
    A model is a Gallina function over an arbitrary type [F] carrying the
    operations of [Fops]; theorems assume [field_theory] for them (a section
    hypothesis, never an axiom).  Execution uses the instance [QcK] at the
-   canonical rationals [Qc]; its arithmetic normalises with a fuelled
-   Euclidean gcd which is *proved* equal to the standard one, so that the
-   extracted code only uses the big-integer operations mapped by
-   ExtrOcamlZBigInt and no extra extraction directive is needed.
+   canonical rationals [Qc]; its arithmetic normalises with [Z.gcd] and
+   [Z.div] (proved equal to the standard [Qred]) so that the extracted code
+   only uses big-integer operations: those mapped by ExtrOcamlZBigInt plus
+   the single directive  Extract Constant Z.gcd => Big_int_Z.gcd_big_int
+   of Extract/Extract.v (the library file maps no gcd, and a gcd written in
+   Gallina is quadratic: 0.5 ms per operation on 1000-bit numbers).
 
    Transcendental functions (pi, sqrt, exp, ln, Boys) are fields of [Fops]:
    in theorems they are arbitrary (hypotheses state what is needed of them),
@@ -26,12 +28,14 @@ Record Fops (F : Type) := mkFops {
   feqb : F -> F -> bool;
   fpi : F;
   fsqrt : F -> F; fexp : F -> F; fln : F -> F;
-  fboys : nat -> F -> F
+  fboys : nat -> F -> F;
+  fapx : F -> F                     (* identity in theorems (hypothesis); in fast execution a rounding
+                                       to a dyadic grid applied to individual terms of long sums *)
 }.
 Arguments f0 {F}. Arguments f1 {F}. Arguments fadd {F}. Arguments fmul {F}.
 Arguments fsub {F}. Arguments fopp {F}. Arguments fdiv {F}. Arguments finv {F}.
 Arguments fleb {F}. Arguments feqb {F}. Arguments fpi {F}. Arguments fsqrt {F}.
-Arguments fexp {F}. Arguments fln {F}. Arguments fboys {F}.
+Arguments fexp {F}. Arguments fln {F}. Arguments fboys {F}. Arguments fapx {F}.
 
 Notation is_field K :=
   (field_theory (f0 K) (f1 K) (fadd K) (fmul K) (fsub K) (fopp K) (fdiv K) (finv K) eq).
@@ -46,33 +50,14 @@ Fixpoint ofnat {F} (K : Fops F) (n : nat) : F :=
 (* Fast canonical rationals                                            *)
 (* ------------------------------------------------------------------ *)
 
-(* Euclid with fuel; when the fuel runs out it falls back on the standard
-   gcd, so the function equals [Z.gcd] for every fuel. *)
-Fixpoint gcd_fuel (fuel : nat) (a b : Z) : Z :=
-  match fuel with
-  | O => Z.gcd a b
-  | S f => if Z.eqb b 0 then Z.abs a else gcd_fuel f b (Z.modulo a b)
-  end.
-
-Lemma gcd_fuel_correct fuel : forall a b, gcd_fuel fuel a b = Z.gcd a b.
-Proof.
-  induction fuel as [|f IH]; intros a b; cbn [gcd_fuel]; [reflexivity|].
-  destruct (Z.eqb_spec b 0) as [->|Hb].
-  - now rewrite Z.gcd_0_r.
-  - rewrite IH. rewrite (Z.gcd_comm b), Z.gcd_mod by assumption. apply Z.gcd_comm.
-Qed.
-
-Definition gfuel : nat := (100 * 100)%nat.
-
 Definition Qred_fast (q : Q) : Q :=
   let n := Qnum q in let d := Zpos (Qden q) in
-  let g := gcd_fuel gfuel (Z.abs n) d in
+  let g := Z.gcd n d in
   Qmake (Z.div n g) (Z.to_pos (Z.div d g)).
 
 Lemma Qred_fast_eq q : Qred_fast q = Qred q.
 Proof.
   destruct q as [n d]. unfold Qred_fast, Qred. cbn [Qnum Qden].
-  rewrite gcd_fuel_correct, Z.gcd_abs_l.
   pose proof (Z.ggcd_gcd n (Zpos d)) as Hg.
   pose proof (Z.ggcd_correct_divisors n (Zpos d)) as Hd.
   destruct (Z.ggcd n (Zpos d)) as [g [aa bb]]. cbn [fst snd] in *.
@@ -125,13 +110,21 @@ Proof.
   apply Qc_is_canon. unfold Q2Qc; cbn [this]. rewrite !Qred_correct. reflexivity.
 Qed.
 
-(* The executable instance: exact rationals, transcendental closures given. *)
-Definition QcK (opi : Qc) (osqrt oexp oln : Qc -> Qc) (oboys : nat -> Qc -> Qc) : Fops Qc :=
+(* rounding (towards -infinity) to a multiple of 2^-s: all in mapped big-integer operations *)
+Definition qc_round (s : Z) (x : Qc) : Qc :=
+  let sc := Z.shiftl 1 s in
+  Q2Qcf (Qmake (Z.div (Z.mul (Qnum x) sc) (Zpos (Qden x))) (Z.to_pos sc)).
+
+(* The executable instance: exact rationals, transcendental closures given.
+   exact = true: fapx is the identity (the instance the theorems' hypothesis on fapx holds for);
+   exact = false: individual terms of long sums are rounded to multiples of 2^-400. *)
+Definition QcK (exact : bool) (opi : Qc) (osqrt oexp oln : Qc -> Qc) (oboys : nat -> Qc -> Qc)
+  : Fops Qc :=
   mkFops Qc (Q2Qc 0) (Q2Qc 1) qc_add qc_mul qc_sub qc_opp qc_div qc_inv qc_leb qc_eqb
-         opi osqrt oexp oln oboys.
+         opi osqrt oexp oln oboys (if exact then (fun x => x) else qc_round 400).
 
 (* Without functional extensionality: rebuild the record field by field. *)
-Lemma QcK_field opi osqrt oexp oln oboys : is_field (QcK opi osqrt oexp oln oboys).
+Lemma QcK_field ex opi osqrt oexp oln oboys : is_field (QcK ex opi osqrt oexp oln oboys).
 Proof.
   cbn [QcK f0 f1 fadd fmul fsub fopp fdiv finv].
   pose proof Qcft as [[A0 A1 A2 A3 A4 A5 A6 A7 A8] B C D].
@@ -143,3 +136,6 @@ Qed.
 Definition qc_of (n : Z) (d : positive) : Qc := Q2Qcf (Qmake n d).
 Definition qc_num (x : Qc) : Z := Qnum x.
 Definition qc_den (x : Qc) : positive := Qden x.
+
+Lemma QcK_exact_apx opi osqrt oexp oln oboys x : fapx (QcK true opi osqrt oexp oln oboys) x = x.
+Proof. reflexivity. Qed.
